@@ -187,7 +187,7 @@ def is_ast(x):
 # Scenario generation: sources + literal op list
 ###############################################################################
 
-OPS_ANY = ('str', 'repr', 'hash', 'eq', 'iterate', 'children', 'subtree', 'but_same', 'but_child', 'but_scalar', 'but_metadata', 'set_metadata', 'scribble_on_results')
+OPS_ANY = ('str', 'repr', 'hash', 'eq', 'iterate', 'children', 'subtree', 'but_same', 'but_child', 'but_scalar', 'but_metadata', 'set_metadata', 'scribble_on_results', 'construct')
 OPS_EXPR = ('external_references', 'contains_reference', 'contains_self_reference', 'contains_definition',
             'is_fully_typed', 'cast', 'replace_self_reference', 'replace_var_reference', 'type_check_expr',
             'simplify', 'split_and', 'refactor_reference', 'replace_this_with_var', 'replace_var_with_this',
@@ -206,8 +206,12 @@ def gen_scenario(seed, cfg):
     sim = core.Sim(seed)
     nsrc = sim.randint('nsrc', 2, 4)
     sources = []
+    # a "project" run: mostly properties, identifiers from one small pool written with other capitals
+    project = sim.coin('project', 0.15)
     for i in range(nsrc):
         k = sim.weighted('srckind', [(4, 'expr'), (3, 'pred'), (3, 'prop'), (0.7, 'spec')])
+        if project and sim.coin('projprop', 0.7):
+            k = 'prop'
         depth = sim.randint('depth', 1, 4)
         if k in ('expr', 'pred'):
             eg = gen.ExprGen(sim, max_depth=depth, allow_alias=sim.coin('al', 0.5), allow_quant=sim.coin('q', 0.4),
@@ -222,11 +226,16 @@ def gen_scenario(seed, cfg):
             sources.append({'kind': k, 'text': gen.render(t)})
         elif k == 'prop':
             pg = gen.PropGen(sim, max_depth=min(depth, 2))
+            if project:
+                pg.id_pool = gen.CASE_IDS
             sources.append({'kind': 'prop', 'text': gen.render_property(pg.prop())})
         else:
             pg = gen.PropGen(sim, max_depth=1)
+            if project:
+                pg.id_pool = gen.CASE_IDS
             sources.append({'kind': 'spec', 'text': '\n'.join(gen.render_property(pg.prop()) for _ in range(sim.randint('nprops', 1, 3)))})
     for src in sources:
+        src['via'] = sim.weighted('via', [(8, 'parse'), (1, 'deepcopy'), (1, 'pickle')])
         if sim.coin('annotate', 0.5):
             src['annotate'] = (sim.rng.getrandbits(24) & sim.rng.getrandbits(24)) | 1  # the root and about a quarter of the nodes
             sim.note('annbits', src['annotate'])
@@ -243,7 +252,8 @@ def gen_scenario(seed, cfg):
         op['order'] = sim.weighted('order', [(3, {'kind': 'identity'}), (2, {'kind': 'reverse'}),
                                              (2, {'kind': 'shuffle', 'seed': sim.subseed('oshuf')})])
         ops.append(op)
-    return {'seed': seed, 'sources': sources, 'ops': ops, 'digest_gen': sim.digest()}
+    wmode = 'error' if sim.coin('warnings_error', 0.1) else 'default'
+    return {'seed': seed, 'sources': sources, 'ops': ops, 'warnings': wmode, 'digest_gen': sim.digest()}
 
 
 ###############################################################################
@@ -295,6 +305,19 @@ class Violation(Exception):
 
 
 def parse_source(src):
+    """The source tree, obtained the way the scenario says: parsed, or a deep copy / an unpickled copy
+    of the parsed tree (trees do not only come from the parser)."""
+    obj = _parse_source(src)
+    via = src.get('via', 'parse')
+    if via == 'deepcopy':
+        return copy.deepcopy(obj)
+    if via == 'pickle':
+        import pickle
+        return pickle.loads(pickle.dumps(obj))
+    return obj
+
+
+def _parse_source(src):
     from hpl import parser as hp
     k = src['kind']
     if k == 'expr':
@@ -391,6 +414,36 @@ def do_op(name, h, h2, op, pool, schema, msg_types):
         else:
             val = donor
         return obj.but(**{fname: val}), ('changed', fname, val)
+    if name == 'construct':
+        # a new parent built by a CONSTRUCTOR directly around trees that already exist
+        from hpl.ast.specs import HplSpecification
+        from hpl.ast.events import HplEventDisjunction, HplSimpleEvent
+        from hpl.ast.predicates import predicate_from_expression
+        from hpl.ast.expressions import HplUnaryOperator
+        sel = op['sel']
+        if h.kind == 'property':
+            others = [x.obj for x in pool if x.kind == 'property' and x.obj is not obj]
+            props = [obj]
+            for j in range(1 + sel % 2):
+                if others:
+                    props.append(others[(sel >> (2 + 3 * j)) % len(others)])
+            if (sel >> 1) & 1:
+                props.reverse()
+            return HplSpecification(tuple(props)), None
+        if h.kind == 'specification':
+            extra = [x.obj for x in pool if x.kind == 'property']
+            props = tuple(obj.properties) + tuple(extra[(sel >> 2) % len(extra):][:1] if extra else ())
+            return HplSpecification(props[::-1] if sel & 1 else props), None
+        if h.kind == 'event':
+            other = h2.obj if h2.kind == 'event' else obj
+            return (HplEventDisjunction(obj, other) if sel & 1 else HplEventDisjunction(other, obj)), None
+        if h.kind == 'predicate':
+            return HplSimpleEvent.publish(('a', '/cmd_vel', 'ns/topic')[sel % 3], predicate=obj, alias=(None, 'C1')[(sel >> 2) & 1]), None
+        if h.kind == 'expression':
+            if sel & 1:
+                return predicate_from_expression(obj), None
+            return (HplUnaryOperator.minus(obj) if (sel >> 1) & 1 else HplUnaryOperator.negation(obj)), None
+        return obj.but(), 'same'
     if name == 'but_metadata':
         # the keyword the method itself looks for: the dict of another tree, of the receiver, or a fresh one
         k = op['sel'] % 3
@@ -703,7 +756,7 @@ def execute(sc, stats=None, upto=None, trace=None):
         abort = op.get('abort')
         itr = None
         try:
-            with seams.simset_installed(policy):
+            with seams.simset_installed(policy), core.warnings_filter(sc.get('warnings')):
                 if abort and name != 'set_metadata':
                     itr = seams.Interrupter(abort['k'], abort['exc'])
                     with itr:
@@ -930,13 +983,13 @@ def make_replay(sc, v):
         o['name'] = nm
     sc = dict(sc, ops=ops)
     return {'property': PROP, 'class': v['class'], 'detail': v['detail'], 'failing_op': v['op'], 'step': v['step'],
-            'sources': sc['sources'], 'ops': sc['ops'], 'seed': sc.get('seed'),
+            'sources': sc['sources'], 'ops': sc['ops'], 'seed': sc.get('seed'), 'warnings_filter': sc.get('warnings', 'default'),
             'pythonhashseed': os.environ.get('PYTHONHASHSEED'),
             'how_to_replay': '/venv/bin/python /verif/check.py C16 --replay <this file>'}
 
 
 def replay(doc):
-    sc = {'sources': doc['sources'], 'ops': doc['ops']}
+    sc = {'sources': doc['sources'], 'ops': doc['ops'], 'warnings': doc.get('warnings_filter', 'default')}
     prep()
     return isolated_execute(sc)
 
